@@ -75,6 +75,20 @@ class World:
             for (p_, q), f in m.funcs.items():
                 if p_ == path and "." not in q and q not in g:
                     g[q] = (lambda fn: (lambda *a, **k: self.ev.run_function(fn.node, list(a), k)))(f)
+        # the tokenising helpers of fparser.common.splitline that a few matchers import
+        class _String(str):
+            pass
+
+        class _ParenString(str):
+            pass
+        g.setdefault("String", _String)
+        g.setdefault("ParenString", _ParenString)
+        for name, val in PE.module_regexes(m, "fparser.common.splitline").items():
+            g.setdefault(name, val)
+        spath = m.modfile.get("fparser.common.splitline")
+        for (p_, q), f in m.funcs.items():
+            if p_ == spath and "." not in q and q not in g and q != "string_replace_map":
+                g[q] = (lambda fn: (lambda *a, **k: self.ev.run_function(fn.node, list(a), k)))(f)
         self.classes = {}
         for name, k in m.snap["std_classes"][std].items():
             self.classes[name] = k
@@ -713,6 +727,103 @@ SAMPLES = [
     ("End_Do_Stmt", "end do outer"),
     ("End_If_Stmt", "endif"),
     ("Include_Stmt", "include 'a b,(c).inc'"),
+    # --- leaves and small classes
+    ("Name", "my_Var_1"),
+    ("Label", "00100"),
+    ("Extended_Intrinsic_Op", "//"),
+    ("Extended_Intrinsic_Op", ".ge."),
+    ("Type_Param_Value", "*"),
+    ("Signed_Int_Literal_Constant", "-12_i8"),
+    ("Signed_Real_Literal_Constant", "+1.5e-3_dp"),
+    ("Digit_String", "007"),
+    ("Binary_Constant", "b'0101'"),
+    ("Octal_Constant", "O\"777\""),
+    ("Hex_Constant", "z'1F'"),
+    ("Type_Name", "point_t"),
+    ("End_Type_Stmt", "end type point_t"),
+    ("Sequence_Stmt", "sequence"),
+    ("Type_Param_Attr_Spec", "kind"),
+    ("Dimension_Component_Attr_Spec", "dimension(n, f(1, 2))"),
+    ("Component_Attr_Spec", "pointer"),
+    ("Proc_Component_PASS_Arg_Name", "pass(self)"),
+    ("Proc_Component_Attr_Spec", "nopass"),
+    ("Private_Components_Stmt", "private"),
+    ("Binding_Private_Stmt", "private"),
+    ("Binding_PASS_Arg_Name", "pass(this)"),
+    ("Binding_Attr", "non_overridable"),
+    ("Derived_Type_Spec", "point(2, k=(3))"),
+    ("Type_Param_Spec", "k = f(1, 2)"),
+    ("End_Enum_Stmt", "end enum"),
+    ("Dimension_Attr_Spec", "dimension(0:n, f(1, 2))"),
+    ("Intent_Attr_Spec", "intent(inout)"),
+    ("Attr_Spec", "allocatable"),
+    ("Null_Init", "null"),
+    ("Access_Spec", "private"),
+    ("Intent_Spec", "inout"),
+    ("Bind_Entity", "/blk/"),
+    ("Cray_Pointee_Decl", "b(n, f(1, 2))"),
+    ("Pointer_Decl", "b(:, :)"),
+    ("Saved_Entity", "/blk/"),
+    ("Substring", "s(f(1, 2):n)"),
+    ("Type_Param_Inquiry", "a(i, f(1, 2))%kind"),
+    ("Data_Pointer_Object", "a(i, f(1, 2))%p"),
+    ("Bounds_Spec", "f(1, 2):"),
+    ("Bounds_Remapping", "f(1, 2):g(3, 4)"),
+    ("Proc_Component_Ref", "a(i, f(1, 2))%p"),
+    ("End_Where_Stmt", "end where outer"),
+    ("End_Forall_Stmt", "end forall"),
+    ("End_Select_Stmt", "end select outer"),
+    ("End_Associate_Stmt", "end associate"),
+    ("End_Select_Type_Stmt", "end select"),
+    ("Stop_Code", "'a, (b)'"),
+    ("Stop_Code", "12345"),
+    ("Io_Unit", "*"),
+    ("Format", "*"),
+    ("Dtv_Type_Spec", "type(point(2))"),
+    ("Format_Item_C1002", "2p, f8.3"),
+    ("Hollerith_Item", "5Ha,(b)"),
+    ("Sign_Edit_Desc", "sp"),
+    ("Blank_Interp_Edit_Desc", "bz"),
+    ("Round_Edit_Desc", "rn"),
+    ("Decimal_Edit_Desc", "dc"),
+    ("End_Program_Stmt", "end program main"),
+    ("End_Module_Stmt", "end module"),
+    ("Module_Nature", "non_intrinsic"),
+    ("End_Block_Data_Stmt", "end block data bd"),
+    ("Prefix_Spec", "elemental"),
+    ("Dummy_Arg", "*"),
+]
+
+# Fortran 2008 only (interpreted with the classes of the 2008 grammar)
+SAMPLES_2008 = [
+    ("Attr_Spec", "contiguous"),
+    ("Codimension_Attr_Spec", "codimension[2, *]"),
+    ("Block_Stmt", "block"),
+    ("Coarray_Bracket_Spec", "[2, f(1, 2):*]"),
+    ("Codimension_Attr_Spec", "codimension[n, *]"),
+    ("Coshape_Spec", "0:f(1, 2)"),
+    ("Critical_Stmt", "critical"),
+    ("Deferred_Coshape_Spec", ":"),
+    ("End_Block_Stmt", "end block outer"),
+    ("End_Critical_Stmt", "end critical"),
+    ("End_Submodule_Stmt", "end submodule sub"),
+    ("Error_Stop_Stmt", "error stop 'a, (b)'"),
+    ("Error_Stop_Stmt", "error stop"),
+    ("Explicit_Coshape_Spec", "2, 0:f(1, 2), *"),
+    ("Parent_Identifier", "anc:par"),
+    ("Submodule_Stmt", "submodule (anc:par) sub"),
+    ("Loop_Control", ", concurrent (i = 1:n, j = 1:f(m, 2), a(i, j) > 0)"),
+    ("Loop_Control", "concurrent (i = 1:n)"),
+    ("Nonlabel_Do_Stmt", "do concurrent (i = 1:n)"),
+    ("Label_Do_Stmt", "do 10 concurrent (i = 1:f(n, 2))"),
+    ("Open_Stmt", "open (newunit=lun, file='a,b')"),
+    ("Allocate_Stmt", "allocate (a(n), mold=b(1, f(2, 3)))"),
+    ("Alloc_Opt", "mold = b(1, f(2, 3))"),
+    ("Type_Declaration_Stmt", "real, contiguous, codimension[*] :: a(n, f(1, 2))"),
+    ("Proc_Decl", "p => f"),
+    ("Procedure_Stmt", "procedure :: f, g"),
+    ("Procedure_Stmt", "module procedure f"),
+    ("If_Stmt", "if (a(i, 1) > f(0, 1)) error stop 'x,y'"),
 ]
 
 
@@ -831,13 +942,13 @@ CANONICAL = {
 }
 
 
-def roundtrip_rule(m, rid, samples=None, floor=1, tokens=False, build_depth=0):
+def roundtrip_rule(m, rid, samples=None, floor=1, tokens=False, build_depth=0, std="f2003"):
     samples = SAMPLES if samples is None else samples
     r = RuleResult(rid, "fparser2 class-local round trip by interpretation: for %d sample texts the class's matcher (children are recording "
                         "stubs, engines interpreted) accepts the text, every literal and parenthesised group re-appears in what its printer "
                         "prints, and that text is accepted again and prints to itself" % len(samples))
     r.floor = floor
-    world = World(m)
+    world = World(m, std)
     world.build = build_depth
     for cname, text in samples:
         key = world.classes.get(cname)
